@@ -59,11 +59,16 @@ SHAPES = {
     "otherNs": ("", '<o:x xmlns:o="urn:o">5</o:x>'),
     "compoundN": ("", "<n>5</n><leaf><v>1</v></leaf>"),
     "sibling": ("", "<x>5</x><zz>1</zz>"),
+    "known": ("", "<SLeaf><v>1</v></SLeaf>"),
+    "knownTwice": ("", "<SLeaf><v>1</v></SLeaf><SLeaf><v>2</v></SLeaf>"),
+    "knownThenX": ("", "<SLeaf><v>1</v></SLeaf><x>5</x>"),
 }
 
 MODELS = dict(pm.SHAPE_MODELS)
 MODELS["attrInt"] = dataclasses.make_dataclass(
     "KAttrInt", [("x", Optional[int], dataclasses.field(default=None, metadata={"type": "Attribute"}))])
+MODELS["wildcardOne"] = dataclasses.make_dataclass(
+    "KWildcardOne", [("x", Optional[object], dataclasses.field(default=None, metadata={"type": "Wildcard", "namespace": "##any"}))])
 _WRAP: dict = {}
 
 
